@@ -348,6 +348,69 @@ impl<K: CacheKey + 'static> MemoryCache<K> {
         }
     }
 
+    /// Evict entries, in the order of the configured policy, until `incoming`
+    /// more bytes fit under `max_memory_bytes`. The entry stored under `key`
+    /// is about to be replaced: its bytes do not count and it is not evicted.
+    fn make_room_for(&self, key: &K, incoming: usize) {
+        let Some(max_bytes) = self.config.max_memory_bytes else {
+            return;
+        };
+        let replaced = self.storage.get(key).map_or(0, |entry| entry.size_bytes) as u64;
+        let fits = || {
+            let used = self.memory_usage.load(Ordering::Relaxed);
+            used.saturating_sub(replaced) + incoming as u64 <= max_bytes as u64
+        };
+        if fits() {
+            return;
+        }
+
+        // Smallest rank is evicted first
+        let mut candidates: Vec<(K, u128)> = self
+            .storage
+            .iter()
+            .filter(|entry| entry.key() != key)
+            .filter_map(|entry| {
+                let value = entry.value();
+                let rank = match &self.config.eviction_policy {
+                    crate::traits::EvictionPolicy::Lru => u128::from(value.get_last_accessed()),
+                    crate::traits::EvictionPolicy::Lfu => u128::from(value.get_access_count()),
+                    crate::traits::EvictionPolicy::Fifo => {
+                        u128::MAX - value.created_at.elapsed().as_nanos()
+                    }
+                    crate::traits::EvictionPolicy::Random => 0,
+                    // This policy only ever drops expired entries
+                    crate::traits::EvictionPolicy::Ttl => {
+                        if !value.is_expired() {
+                            return None;
+                        }
+                        0
+                    }
+                };
+                Some((entry.key().clone(), rank))
+            })
+            .collect();
+        if matches!(
+            self.config.eviction_policy,
+            crate::traits::EvictionPolicy::Random
+        ) {
+            use rand::{rng, seq::SliceRandom};
+            candidates.shuffle(&mut rng());
+        }
+        candidates.sort_by_key(|(_, rank)| *rank);
+
+        for (candidate, _) in candidates {
+            if fits() {
+                break;
+            }
+            if let Some((_, entry)) = self.storage.remove(&candidate) {
+                self.entry_count.fetch_sub(1, Ordering::Relaxed);
+                self.memory_usage
+                    .fetch_sub(entry.size_bytes as u64, Ordering::Relaxed);
+                self.metrics.record_eviction(entry.size_bytes);
+            }
+        }
+    }
+
     /// Get current cache statistics
     pub fn cache_stats(&self) -> crate::stats::CacheStats {
         let snapshot = self.metrics.fast_snapshot();
@@ -424,10 +487,22 @@ impl<K: CacheKey + 'static> AsyncCache<K> for MemoryCache<K> {
         let start_time = Instant::now();
         let size_bytes = value.len();
 
+        // A value above the byte budget can never be held: it is not admitted,
+        // and an older value of the key must not be served in its place
+        if self
+            .config
+            .max_memory_bytes
+            .is_some_and(|max| size_bytes > max)
+        {
+            self.remove(&key).await?;
+            return Ok(());
+        }
+
         // Check capacity and evict if necessary
         if self.needs_eviction() {
             self.perform_eviction();
         }
+        self.make_room_for(&key, size_bytes);
         #[cfg(feature = "verif-hooks")] crate::verif_hooks::sched_point("memory.put_with_ttl.before-insert");
 
         let entry = Arc::new(MemoryCacheEntryInner::new(value, size_bytes, Some(ttl)));
